@@ -25,7 +25,7 @@ RULE = (
     'program text (reference model).  Non-trivial = a request landed while live and in flight; distinct = distinct '
     'event-log digest.'
 )
-BUDGET = {'quick': (60000, 55), 'thorough': (4_000_000, 600)}
+BUDGET = {'quick': (150000, 55), 'thorough': (4_000_000, 600)}
 COMPONENTS = common.COMPONENTS
 ASSUMPTIONS = ['FIFO ready queue', 'future().cancel() is not issued here (C04 covers it)', 'hooks do not raise']
 EXPECTED_COUNTERS = ['probe:with_communicator', 'probe:listener_failed_in_notification', 'kind:workchain', 'probe:listener_removes_itself_in_terminal_notification', 'probe:failed_while_paused', 'probe:kill_while_paused', 'probe:kill_during_step', 'probe:kill_from_listener',
